@@ -219,3 +219,48 @@ pub fn database_roots(db: &Database) -> Result<Vec<TreeRoot>, String> {
     }
     Ok(out)
 }
+
+/// What the B-tree position iterator does after it has reported an error. A tree with several leaves is built on a scratch
+/// pager, one leaf in the middle of the leaf chain is deallocated behind the tree's back (its frame becomes an overflow frame, so
+/// reading it as a B-tree page fails), then the tree is iterated forward. Returns `oks=<n> then=<a>,<b>,<c>`: the number of
+/// positions yielded before the first error and what the next three `next()` calls return (`none` / `err` / `ok`).
+pub fn iterator_after_error(dir: &Path, page_size: usize) -> Result<String, String> {
+    use crate::tree::{accessor::BtreeReadAccessor, bplustree::Btree};
+    use crate::verif::btree::{KeyKind, PageBody, VKey, VTree};
+    let mut vt = VTree::create(dir, page_size, 3, 2, 2000, KeyKind::U64).map_err(|e| class(&e))?;
+    for k in 1..=400u64 {
+        vt.insert(&VKey::U64(k), &[7u8; 40]).map_err(|e| format!("insert:{e:?}"))?;
+    }
+    let dump = vt.dump();
+    // a leaf that has both a predecessor and a successor in the leaf chain
+    let victim = dump
+        .pages
+        .iter()
+        .find_map(|p| match &p.body {
+            PageBody::Btree(b) if b.right_child.is_none() && b.prev.is_some() && b.next.is_some() => Some(p.id),
+            _ => None,
+        })
+        .ok_or_else(|| "no-middle-leaf".to_string())?;
+    vt.pager().write().dealloc_page::<BtreePage>(victim).map_err(|e| class(&e))?;
+    let mut tree = Btree::new(vt.root(), vt.pager(), 3, 2).with_accessor(BtreeReadAccessor::new());
+    let mut it = tree.iter_forward().map_err(|e| format!("iter:{e}"))?;
+    let mut oks = 0usize;
+    loop {
+        match it.next() {
+            Some(Ok(_)) => oks += 1,
+            Some(Err(_)) => break,
+            None => return Ok(format!("oks={} then=no-error", oks)),
+        }
+        if oks > 100_000 {
+            return Ok("oks=unbounded".into());
+        }
+    }
+    let after: Vec<&str> = (0..3)
+        .map(|_| match it.next() {
+            None => "none",
+            Some(Err(_)) => "err",
+            Some(Ok(_)) => "ok",
+        })
+        .collect();
+    Ok(format!("oks={} then={}", oks, after.join(",")))
+}
